@@ -12,21 +12,15 @@ Open Scope Z_scope.
 (* ------------------------------------------------------------------------------------------ *)
 
 Lemma loop_progress_l :
-  forallb (fun l => loop_ok l || loop_in allow_list l || loop_in known_defect_loops l) reader_loops = true.
+  forallb (fun l => loop_ok l || loop_in allow_list l) reader_loops = true.
 Proof. vm_compute. reflexivity. Qed.
 
 Lemma loop_progress_lifted_l : forall l, In l reader_loops ->
-  loop_ok l = true \/ loop_in allow_list l = true \/ loop_in known_defect_loops l = true.
+  loop_ok l = true \/ loop_in allow_list l = true.
 Proof.
   intros l H. pose proof loop_progress_l as P. rewrite forallb_forall in P.
-  specialize (P l H). apply orb_true_iff in P. destruct P as [P | P]; [| auto].
-  apply orb_true_iff in P. destruct P; auto.
+  specialize (P l H). apply orb_true_iff in P. exact P.
 Qed.
-
-Lemma loop_defects_exact_l :
-  filter (fun l => negb (loop_ok l || loop_in allow_list l)) reader_loops
-  = filter (loop_in known_defect_loops) reader_loops.
-Proof. vm_compute. reflexivity. Qed.
 
 Lemma allow_list_needed_l :
   forallb (fun l => negb (loop_in allow_list l && loop_ok l)) reader_loops = true.
